@@ -59,6 +59,7 @@ def run(ctx, R, tier):
     init_sites(F, R)
     inflight(F, R)
     dt_rule(F, R)
+    shared_rate_single(F, R)
     # 'tweens keep their real-time speed' at every rate: each parameter is updated exactly once per pass, by that pass's duration
     from .c06 import cover as parameter_cover
     parameter_cover(F, R)
@@ -394,3 +395,12 @@ def dt_rule(F, R):
                     '%s::process does not take its time step from the dt argument (dt used: %s, reads a shared rate: %s)'
                     % (im['self_ty'], used, bool(loads)), detail={'impl': im['self_ty'], 'uses_dt': used})
     R.floor('B.C16.dt', n, 10)
+
+
+def shared_rate_single(F, R):
+    """The device rate lives in ONE RendererShared: the one AudioManager::new creates and hands to the Renderer.  Handles that
+    create child tracks read their rate from a clone of that Arc; a RendererShared built anywhere else is a private copy that
+    `Renderer::on_change_sample_rate` never updates."""
+    sites = [b.path for b in F.bodies if b.krate == 'kira' for _, t in b.calls() if (callee_path(t) or '') == 'backend::renderer::RendererShared::new']
+    R.check(sites and all(s.endswith('manager::AudioManager::<B>::new') for s in sites), 'B.C16.init', 'one-shared',
+            'RendererShared::new is called in %s: only AudioManager::new may create the shared rate' % sites, detail={'sites': sites})
